@@ -572,3 +572,173 @@ Definition run_frame_at (bits n i : Z) (bytes : list Z) : val :=
       vz_list [o; l]; vz_list (decode_native bits n i (slice o (o + l) bytes))].
 
 Definition run_rhe (a b : Z) : val := VZ (rhe a b).
+
+(* ------------------------------------------------------------------ *)
+(* histories: the decoded-array cache and the other read entry points   *)
+(* ------------------------------------------------------------------ *)
+(* pydicom Dataset.pixel_array / image.py Image.pixel_array: the WHOLE native
+   PixelData decoded at once (all bits unpacked / all bytes / all 16-bit words)
+   and kept in _pixel_array; once it is there, get_stored_frame,
+   get_stored_frames and _get_pixels_by_frame index it instead of decoding the
+   byte range of one frame. *)
+Definition whole_flat (st : stored) : list Z :=
+  match bits_alloc (s_cfg st) with
+  | 1 => map pixel_of_bit (unpack_bits (s_bytes st))
+  | 8 => s_bytes st
+  | _ => un16 (s_bytes st)
+  end.
+
+Definition cached_frame (st : stored) (i : Z) : list Z :=
+  let c := s_cfg st in
+  if native c then slice (i * npix c) (i * npix c + npix c) (whole_flat st)
+  else nthz i (s_frames st) [].
+
+(* where frame index i comes from, given the kind of object (lazy file reader
+   or not) and whether .pixel_array was touched before (warm).  The lazy
+   object fills its cache with get_stored_frames(), i.e. frame by frame. *)
+Definition frame_getter (lazy warm : bool) (st : stored) : Z -> list Z :=
+  if warm && negb lazy then cached_frame st else stored_frame lazy st.
+
+(* the read path over an arbitrary frame getter g *)
+Definition fetch_g (g : Z -> list Z) (st : stored) (s j : Z) : list Z :=
+  match find_frame st s j with
+  | Some i => g i
+  | None => zeros (npix (s_cfg st))
+  end.
+
+Definition read_plane_g (g : Z -> list Z) (st : stored) (j : Z) : list (list Z) :=
+  let c := s_cfg st in
+  match ty c with
+  | LABELMAP =>
+      map (fun v => let r := remap_from 1 v (segs c) in
+                    map (fun k => if r =? k then 1 else 0) (one_to (zlen (segs c))))
+          (fetch_g g st 0 j)
+  | _ =>
+      let chans := map (fun s => fetch_g g st s j) (segs c) in
+      map (fun p => map (fun ch => nthz p ch 0) chans) (zrange (npix c))
+  end.
+
+(* the query guards do not look at pixels: they are those of read_by_instance /
+   read_by_frame; [src_index] is the source plane a request item stands for *)
+Definition src_index (byframe : bool) (r : Z) : Z := if byframe then r - 1 else r.
+
+Definition read_guard (st : stored) (req : list Z) (byframe assert_missing : bool) : res unit :=
+  match (if byframe then read_by_frame false st req assert_missing
+         else read_by_instance false st req assert_missing) with
+  | Ok _ => Ok tt
+  | Err k => Err k
+  end.
+
+Definition read_g (g : Z -> list Z) (st : stored) (req : list Z) (byframe assert_missing : bool)
+  : res (list (list (list Z))) :=
+  bind (read_guard st req byframe assert_missing) (fun _ =>
+  Ok (map (fun r => read_plane_g g st (src_index byframe r)) req)).
+
+(* _get_pixels_by_seg_frame(combine_segments=True, relabel=False), every
+   described segment requested.  LABELMAP: the stored labels.  BINARY /
+   FRACTIONAL: the frames of one output plane are visited one after the other;
+   a FRACTIONAL frame with a value other than 0 / MaximumFractionalValue raises
+   ValueError, a pixel set in two segments raises RuntimeError, otherwise the
+   pixel gets the number of its segment.  (The order in which the frames of ONE
+   output plane are visited is not specified by the SQL query; the model takes
+   the order of the described segments, and the harness draws no case where
+   the outcome depends on it.) *)
+Definition nonbinary (mf : Z) (f : list Z) : bool :=
+  existsb (fun v => negb ((v =? 0) || (v =? mf))) f.
+
+Fixpoint overlap2 (b acc : list Z) : bool :=
+  match b, acc with
+  | x :: b', y :: a' => ((0 <? x) && (0 <? y)) || overlap2 b' a'
+  | _, _ => false
+  end.
+
+Fixpoint max2 (b acc : list Z) : list Z :=
+  match b, acc with
+  | x :: b', y :: a' => Z.max x y :: max2 b' a'
+  | _, _ => []
+  end.
+
+Definition combine_step (g : Z -> list Z) (st : stored) (j : Z) (acc : res (list Z)) (s : Z)
+  : res (list Z) :=
+  let c := s_cfg st in
+  bind acc (fun out =>
+  match find_frame st s j with
+  | None => Ok out
+  | Some i =>
+      let f := g i in
+      let frac := match ty c with FRACTIONAL => true | _ => false end in
+      if frac && nonbinary (maxfrac c) f then Err "ValueError" else
+      let b := if frac then map (fun v => v / maxfrac c) f else f in
+      if overlap2 b out then Err "RuntimeError"
+      else Ok (max2 (map (fun v => v * s) b) out)
+  end).
+
+Definition combine_plane (g : Z -> list Z) (st : stored) (j : Z) : res (list Z) :=
+  let c := s_cfg st in
+  match ty c with
+  | LABELMAP => Ok (fetch_g g st 0 j)
+  | _ => fold_left (combine_step g st j) (segs c) (Ok (zeros (npix c)))
+  end.
+
+Fixpoint map_res {A B} (f : A -> res B) (l : list A) : res (list B) :=
+  match l with
+  | [] => Ok []
+  | x :: t => bind (f x) (fun y => bind (map_res f t) (fun ys => Ok (y :: ys)))
+  end.
+
+Definition read_combined (g : Z -> list Z) (st : stored) (req : list Z) (byframe assert_missing : bool)
+  : res (list (list Z)) :=
+  bind (read_guard st req byframe assert_missing) (fun _ =>
+  map_res (fun r => combine_plane g st (src_index byframe r)) req).
+
+(* what combine_segments=True should return for source plane j: per pixel the
+   number of the segment the input puts there (0 = none) *)
+Definition expected_label (c : cfg) (i : input) (j p : Z) : Z :=
+  sum (map (fun k => if expected_pixel c i j p k =? 0 then 0 else nthz k (segs c) 0)
+           (zrange (zlen (segs c)))).
+
+Definition expected_labels (c : cfg) (i : input) : list (list Z) :=
+  map (fun j => map (fun p => expected_label c i j p) (zrange (npix c))) (zrange (n_planes i)).
+
+(* the input can be shown as one label map: every stored value is 0 or the top
+   value (1, or max_fractional_value >= 1), and no pixel is in two segments *)
+Definition top_value (c : cfg) : Z := match ty c with FRACTIONAL => maxfrac c | _ => 1 end.
+
+Definition combinable (c : cfg) (i : input) : bool :=
+  (1 <=? top_value c) &&
+  forallb (fun j => forallb (fun p =>
+      let vs := map (fun k => expected_pixel c i j p k) (zrange (zlen (segs c))) in
+      forallb (fun v => (v =? 0) || (v =? top_value c)) vs &&
+      (zlen (filter (fun v => negb (v =? 0)) vs) <=? 1))
+    (zrange (npix c))) (zrange (n_planes i)).
+
+(* one schedule of calls on one object; step codes: 0 stacked read, 1 combined
+   read, 2 access of .pixel_array (returns all frames and warms the cache),
+   3 / 5 get_stored_frame for every frame (by number / by index),
+   4 get_stored_frames() *)
+Fixpoint hist_steps (lazy warm : bool) (st : stored) (req : list Z) (byframe assert_missing : bool)
+  (steps : list Z) : list val :=
+  match steps with
+  | [] => []
+  | k :: t =>
+      let g := frame_getter lazy warm st in
+      (if k =? 0 then vres vz3 (read_g g st req byframe assert_missing)
+       else if k =? 1 then vres vz_list2 (read_combined g st req byframe assert_missing)
+       else vz_list2 (map (if k =? 2 then frame_getter lazy true st else g) (zrange (zlen (s_meta st)))))
+      :: hist_steps lazy (warm || (k =? 2)) st req byframe assert_missing t
+  end.
+
+(* [NumberOfFrames; per-frame (segment, source index); the step results on the
+   in-memory object; on the eagerly read file (same path, premise W1); on the
+   lazily read file] *)
+Definition run_hist (c : cfg) (i : input) (perm req : list Z) (byframe assert_missing : bool)
+  (steps : list Z) : val :=
+  match construct c i perm with
+  | Err k => VErr k
+  | Ok st =>
+      VL [ VZ (zlen (s_meta st));
+           VL (map (fun m => vz_list [fst m; snd m]) (s_meta st));
+           VL (hist_steps false false st req byframe assert_missing steps);
+           VL (hist_steps false false st req byframe assert_missing steps);
+           VL (hist_steps true false st req byframe assert_missing steps) ]
+  end.
